@@ -29,25 +29,38 @@ structure MiscState where
   started : Bool := false
   prim : List Obj := []
   sec  : List Obj := []
+  /-- the collection `PartialFetchComparable` reads (the transformation has no other dependency on it) -/
+  third : List Obj := []
   cfg  : Option Obj := none
+  /-- nothing changed since the last barrier -/
+  quiet : Bool := false
+  /-- what the discarding inputs must keep: the contents at the quiescent point right before discarding began
+      (`none`: discarding began with changes in flight, the kept results are unknown) -/
+  retained : Option FinMap := none
   subs : AMap FinMap := []
+  xsubs : AMap FinMap := []
   /-- subscribers registered without existing state while results were being discarded: what they hold
       for the keys of the discarding inputs is an unknown earlier result, those keys are not checked -/
   blind : List String := []
   /-- unregistered subscribers: the specification and the mask at that moment -/
   frozen : AMap (FinMap × Bool) := []
 
-def miscVal (cfg : Option Obj) (sec : List Obj) (i : Obj) : Val :=
+def miscVal (cfg : Option Obj) (sec third : List Obj) (i : Obj) : Val :=
   i.ns ++ "|" ++ i.key ++ ":" ++ i.val ++ "|cfg=" ++
     (match cfg with
      | none => "-"
      | some c => c.key ++ ":" ++ c.val) ++ "|" ++
     renderFetch (sec.filter (fun o => o.val == i.val)) ++ "|p=" ++
-    (match ogetD sec i.ref with
+    (match ogetD third i.ref with
      | none => "-"
      | some o => o.ns ++ "." ++ (lget o.labels "l1").getD "")
 
-def miscContents (m : MiscState) : FinMap := m.prim.map (fun i => (i.key, miscVal m.cfg m.sec i))
+def miscContents (m : MiscState) : FinMap := m.prim.map (fun i => (i.key, miscVal m.cfg m.sec m.third i))
+
+def cfgContents (m : MiscState) : FinMap :=
+  match m.cfg with
+  | none => []
+  | some c => [(c.key, c.token)]
 
 /-- `DiscardResult()` is called for these keys: they keep an earlier result -/
 def miscDiscarding (m : MiscState) : Bool :=
@@ -56,6 +69,26 @@ def miscDiscarding (m : MiscState) : Bool :=
   | none => false
 
 def miscMasked (discarding : Bool) (k : Key) : Bool := discarding && k.endsWith "/c"
+
+/-- what `List` / `GetKey` must show: the discarding inputs keep the result they had when discarding began
+    (if known), the others follow the specification -/
+def miscExpected (m : MiscState) : FinMap :=
+  let disc := miscDiscarding m
+  match m.retained with
+  | some r =>
+    (miscContents m).filterMap (fun kv =>
+      if miscMasked disc kv.1 then (AMap.lookup r kv.1).map (fun v => (kv.1, v)) else some kv)
+  | none => restrictMap (fun k => !miscMasked disc k) (miscContents m)
+
+/-- keys whose current value is not known (input created while its results are discarded, or discarding
+    began with changes in flight) -/
+def miscUnknown (m : MiscState) (k : Key) : Bool :=
+  miscMasked (miscDiscarding m) k &&
+    (match m.retained with
+     | some r => (AMap.lookup r k).isNone
+     | none => true)
+
+def mutate (m : MiscState) : MiscState := { m with quiet := false }
 
 def miscVerdict (m0 : FinMap) (es : List Event) (final : FinMap) (disc blind : Bool) : String :=
   let p := fun k => !miscMasked disc k && !(blind && k.endsWith "/c")
@@ -70,39 +103,62 @@ def stepMisc (m : MiscState) (toks : List String) : MiscState × String :=
   | ["p.set", o] =>
     match parseObj o with
     | none => (m, "bad-op")
-    | some o => ({ m with prim := osetD m.prim o }, "ok")
-  | ["p.del", k] => ({ m with prim := odelD m.prim k }, "ok")
+    | some o => ({ (mutate m) with prim := osetD m.prim o }, "ok")
+  | ["p.del", k] =>
+    -- a deleted input loses its kept result (a new one created while discarding shows its first result)
+    ({ (mutate m) with prim := odelD m.prim k, retained := m.retained.map (fun r => AMap.erase r k) }, "ok")
   | ["s.set", o] =>
     match parseObj o with
     | none => (m, "bad-op")
-    | some o => ({ m with sec := osetD m.sec o }, "ok")
-  | ["s.del", k] => ({ m with sec := odelD m.sec k }, "ok")
+    | some o => ({ (mutate m) with sec := osetD m.sec o }, "ok")
+  | ["s.del", k] => ({ (mutate m) with sec := odelD m.sec k }, "ok")
+  | ["t.set", o] =>
+    match parseObj o with
+    | none => (m, "bad-op")
+    | some o => ({ (mutate m) with third := osetD m.third o }, "ok")
+  | ["t.del", k] => ({ (mutate m) with third := odelD m.third k }, "ok")
   | ["x.set", o] =>
-    if o == "nil" then ({ m with cfg := none }, "ok")
-    else match parseObj o with
-      | none => (m, "bad-op")
-      | some o => ({ m with cfg := some o }, "ok")
-  | ["start"] => ({ m with started := true }, "ok")
-  | ["sync"] => (m, "ok")
+    let newCfg : Option (Option Obj) := if o == "nil" then some none else (parseObj o).map some
+    match newCfg with
+    | none => (m, "bad-op")
+    | some c =>
+      let m' : MiscState := { m with cfg := c }
+      let was := miscDiscarding m
+      let now := miscDiscarding m'
+      let ret := if now && !was then (if m.quiet && m.started then some (miscContents m) else none)
+                 else if !now then none else m.retained
+      ({ (mutate m') with retained := ret }, "ok")
+  | ["start"] => ({ (mutate m) with started := true }, "ok")
+  | ["sync"] => ({ m with quiet := true }, "ok")
+  | ["xsub", name, kind] =>
+    ({ m with xsubs := AMap.set m.xsubs name (if kind == "nostate" then cfgContents m else []) }, "ok")
+  | "xstream" :: name :: evs =>
+    ({ m with quiet := true }, "xstream " ++ match parseEvents evs, AMap.lookup m.xsubs name with
+      | some es, some m0 => showVerdict m0 es (cfgContents m)
+      | none, _ => "reject:malformed-event"
+      | _, none => "unknown-subscriber")
   | ["sub", name, kind] =>
     if !m.started then (m, "ok")
-    else ({ m with subs := AMap.set m.subs name (if kind == "nostate" then miscContents m else []),
-                   blind := if kind == "nostate" && miscDiscarding m then name :: m.blind else m.blind }, "ok")
+    else
+      let m1 := mutate m
+      let base := if kind == "nostate" then miscContents m else []
+      let bl := if kind == "nostate" && miscDiscarding m then name :: m.blind else m.blind
+      ({ m1 with subs := AMap.set m.subs name base, blind := bl }, "ok")
   | ["unsub", name] =>
     if !m.started then (m, "ok")
-    else ({ m with frozen := AMap.set m.frozen name (miscContents m, miscDiscarding m) }, "ok")
+    else ({ m with quiet := true, frozen := AMap.set m.frozen name (miscContents m, miscDiscarding m) }, "ok")
   | ["list"] =>
     if !m.started then (m, "list not-started")
-    else (m, "list " ++ showMap (restrictMap (fun k => !miscMasked (miscDiscarding m) k) (miscContents m)))
+    else ({ m with quiet := true }, "list " ++ showMap (restrictMap (fun k => !miscUnknown m k) (miscExpected m)))
   | ["get", k] =>
     if !m.started then (m, "get not-started")
-    else if miscMasked (miscDiscarding m) k then (m, "get masked")
-    else (m, "get " ++ match AMap.lookup (miscContents m) k with
+    else if miscUnknown m k then ({ m with quiet := true }, "get masked")
+    else ({ m with quiet := true }, "get " ++ match AMap.lookup (miscExpected m) k with
       | none => "none"
       | some v => v)
   | "stream" :: name :: evs =>
     if !m.started then (m, "stream not-started") else
-    (m, "stream " ++ match parseEvents evs, AMap.lookup m.subs name with
+    ({ m with quiet := true }, "stream " ++ match parseEvents evs, AMap.lookup m.subs name with
       | some es, some m0 =>
         (match AMap.lookup m.frozen name with
          | some fz => miscVerdict m0 es fz.1 fz.2 (m.blind.contains name)
